@@ -141,7 +141,16 @@ XbBody(e, exp, okc, okr, hc, hr, dcomp, draw) ==
      ELSE TRUE
 Xb(e) == XbBody(e, ExpRows(e), e.c.st = "ok", e.r.st = "ok", Header(e.c.hdr), Header(e.r.hdr), DecodeRows(e.c.img, 1, e.w, e.h), DecodeRaw(e.r.img, 1, e.w, e.h))
 
+\* the default save path (the colour optimiser runs before the writer): compressed and uncompressed decode to the same cells
+Xbd(e) ==
+  /\ Bump(10)
+  /\ Check(e.dc.st = "ok" /\ e.dr.st = "ok", "C06", "Outcome", l, [save_c |-> "default-path", save_r |-> "default-path", load_c |-> e.dc.st, load_r |-> e.dr.st, w |-> e.w, h |-> e.h, nf |-> e.nf])
+  /\ IF e.dc.st = "ok" /\ e.dr.st = "ok"
+     THEN Check(e.dc.w = e.dr.w /\ e.dc.h = e.dr.h /\ e.dc.cells = e.dr.cells, "C06", "EngineDecodeEq", l,
+                [kind |-> "default-save-path", w |-> e.w, h |-> e.h, nf |-> e.nf, ice |-> e.ice, k |-> e.k, runs |-> {}, at |-> 0, a |-> 0, b |-> 0])
+     ELSE TRUE
 Step(e) == CASE e.ev = "xb" -> Xb(e)
+            [] e.ev = "xbd" -> Xbd(e)
             [] e.ev = "reset" -> TRUE
             [] OTHER -> Viol("TOOL", "unknown-event", l, e.ev)
 Next ==
